@@ -110,6 +110,12 @@ def build_pool(tier):
              ("obj", [("a", 1), ("b", "2")]), ("obj", [("b", 1), ("a", 2)]),
              ("obj", [("c", [1]), ("a", ("set", [1, 2]))]),
              ("obj", [("a", ("set", [2, 1])), ("c", [1.0])]),
+             # the prototype is a member like any other: objects that differ
+             # in it (or in having one) are different
+             ("obj", [("_proto_", ("obj", [("k", "A")])), ("code", 1)]),
+             ("obj", [("_proto_", ("obj", [("k", "B")])), ("code", 1)]),
+             ("obj", [("code", 1), ("_proto_", ("obj", [("k", "A")]))]),
+             ("obj", [("code", 1)]),
              ("node", "1"), ("node", "'a'"), ("node", "NULL"),
              ("node", "[1, 2]"), ("node", "1 + 2"), ("node", "TRUE")]
     deep = [
